@@ -34,6 +34,7 @@ pub struct PeerHandler {
     connection: Connection,
     own_id: [u8; PEER_ID_SIZE],
     peer_id: Option<[u8; PEER_ID_SIZE]>,
+    handshake_done: bool,
     info_hash: [u8; HASH_SIZE],
     pieces_num: usize,
     piece_tx: Option<PieceTx>,
@@ -162,6 +163,7 @@ impl PeerHandler {
             connection: Connection::new(addr),
             own_id,
             peer_id,
+            handshake_done: false,
             info_hash,
             pieces_num,
             piece_tx: None,
@@ -321,6 +323,14 @@ impl PeerHandler {
                     _ => 0,
                 };
 
+                // Until valid Handshake is received, peer is not allowed to send anything else
+                if !self.handshake_done {
+                    match frame {
+                        Frame::Handshake(_) | Frame::KeepAlive(_) => (),
+                        _ => return Err(Error::HandshakeMissing.into()),
+                    }
+                }
+
                 let handled = match frame {
                     Frame::Handshake(handshake) => self.handle_handshake(&handshake).await?,
                     Frame::KeepAlive(_) => true,
@@ -350,6 +360,7 @@ impl PeerHandler {
         handshake: &Handshake,
     ) -> Result<bool, Box<dyn std::error::Error>> {
         handshake.validate(&self.info_hash, &self.peer_id)?;
+        self.handshake_done = true;
 
         let peer_init_handshake = self.peer_id.is_none();
         self.peer_id = Some(*handshake.peer_id());
